@@ -12,4 +12,47 @@ CHECKS = {
         level_text="Generated-input search: thousands of random struct types (reflect.StructOf and generated named/recursive types) x values with boundary scalars and threshold-straddling sizes; each case is encoded and decoded through the public API and compared with the reference model's normalised value. Exploration, not proof: absence of violations on the sampled space only.",
         level_note="Trusts the reference model (self-checked against apache/thrift) and the pure-reflect binder; go1.23.5 only; cyclic values, enums outside int32 and unsupported types are outside the property and never generated.",
     ),
+    "C02": dict(
+        test="TestC02",
+        quick=dict(procs=6, checks=2500),
+        thorough=dict(procs=32, checks=15000, timeout=1500),
+        rule="rapid draws: half from the exhaustive table (9 map key kinds x 14 value forms, 14 element forms x list/set, sizes 0,1,2,8,9,130; "
+             "cells hit are listed under classes 'cell:*'), half random types/values; non-trivial = output contains a container with >=2 elements or a nested struct; "
+             "distinct by hash(type signature, canonical output bytes)",
+        technique="property-based testing (rapid): differential against an independent reference encoder (up to map-entry order), a strict schema-less parser and apache/thrift TBinaryProtocol",
+        level_text="Generated-input search with three independent oracles per case: canonical byte equality with the reference encoder, strict well-formedness parse consuming the output exactly, and apache/thrift v0.13.0 reading the same tree. The specialised map/list routines are each selected by table cells with >=2 entries.",
+        level_note="Trusts the reference encoder/parser (self-checked against apache/thrift) and apache/thrift itself; go1.23.5 only.",
+    ),
+    "C03": dict(
+        test="TestC03",
+        quick=dict(procs=6, checks=2500),
+        thorough=dict(procs=32, checks=15000, timeout=1500),
+        rule="rapid draws (reader type T, value, wire edits, prior destination contents): the reference encoding is parsed and edited at every struct level "
+             "(reorder, drop, insert unknown fields of every wire type, retype, renumber) plus trailing bytes; non-trivial = verdict ok, >=1 known field decoded and "
+             "(>=1 skipped field or non-ascending field order or trailing bytes); distinct by hash(type signature, message bytes)",
+        technique="property-based testing (rapid): schema-evolution message generator, differential against a pure reference decoder (value, n, untouched fields)",
+        level_text="Generated well-formed foreign-writer messages for random reader types, decoded into fresh or pre-filled destinations and compared field by field with the reference decoder's result, including the returned n and ignored fields.",
+        level_note="Duplicate field ids / map keys and by-value structs merged into non-fresh prior contents are left open by the properties: only safety is checked there (counted as gray-value). Trusts the reference decoder.",
+    ),
+    "C04": dict(
+        test="TestC04",
+        quick=dict(procs=6, checks=1500),
+        thorough=dict(procs=32, checks=10000, timeout=1500),
+        rule="rapid draws (type, value incl. retained unknown-field bytes, spare capacity); for every case all buffer lengths 0..size+1 when size<=96, else 13 sampled lengths; "
+             "non-trivial = size>=8 and the type exercises a listed size-path branch (classes 'size:*'); distinct by hash(type signature, reference encoding)",
+        technique="property-based testing (rapid): EncodedSize vs reference size and vs EncodeObject, guarded-arena oracle for every buffer length",
+        level_text="Generated (type, value) pairs; EncodedSize by pointer and by value against the reference model, then EncodeObject into a guarded arena at every length from 0 to size+1 (sampled for large sizes) with and without spare capacity: success iff length>=size, bytes canonical-equal to the reference encoding, nothing outside buf[:len] modified.",
+        level_note="buf[:len(buf)] may be clobbered on error (the property only forbids writing past the buffer); trusts the reference encoder.",
+    ),
+    "C05": dict(
+        test="TestC05",
+        quick=dict(procs=8, checks=150, timeout=600),
+        thorough=dict(procs=32, checks=1500, timeout=2400),
+        mem_gb=6,
+        rule="rapid draws (type, valid or wire-edited message, mutation list); per case up to 10 drawn mutations (prefix, byte, length/count field from a hostile set, splice, insert, delete, random) and, for messages <=160 bytes, "
+             "EVERY prefix, every length/count field x 11 hostile values and every type-code byte x 15 codes; each input is one evaluation; non-trivial = verdict is not ok and the model got past the first field or into a container; distinct by hash(type signature, input bytes)",
+        technique="property-based testing / structured fuzzing (rapid): mutation of valid messages, three-valued reference classifier (well-formed / malformed / open), allocation-delta and crash oracles in an isolated worker with an address-space cap",
+        level_text="Structured mutation fuzzing against a three-valued reference classifier: success iff well-formed (value and n compared), error iff malformed, no panic/fault/worker death, TotalAlloc delta <= 1 MiB + K(T)*len(input), input buffer unmodified. Worker deaths are replayed from a one-case journal.",
+        level_note="'Time proportional to input' is only decided as termination (driver timeout); allocation is measured with GC off in a single goroutine after a warm-up use of the type; native coverage-guided fuzzing is a separate thorough-tier step.",
+    ),
 }
